@@ -23,6 +23,8 @@ import (
 // server; the harness's proxy client is the real ss2022 UDP client (packer / unpacker).
 
 type vfSessWorld struct {
+	socks0 int
+	gos0   int
 	relay  *UDPSessionRelay
 	target int
 	port   uint16
@@ -50,6 +52,8 @@ func vfNewSessWorld(natTimeout time.Duration) *vfSessWorld {
 	w.relay = NewUDPSessionRelay("s", 0, 1500, 0, recvSize, recvSize, []udpRelayServerConn{lnc}, server, stats.NewServerCollector(), r, zap.NewNop())
 	vfAssert(w.relay.Start(context.Background()) == nil, "relay starts")
 	w.port = uint16(w.relay.listeners[0].serverConn.LocalAddr().(*net.UDPAddr).Port)
+	vfQuiesce()
+	w.socks0, w.gos0 = vfNetOpen(), vfLiveGoroutines()
 
 	ccfg, err := ss2022.NewClientCipherConfig(psk, nil, true)
 	vfAssert(err == nil, "client cipher config")
@@ -116,7 +120,7 @@ func vfC11_SessionRoaming() {
 	vfAssert(ok && n == 6 && buf[x] == p2[x], "the datagram from the new address reaches the target")
 	vfAssert(nat2 == nat1, "the session keeps its NAT socket when the client's address changes")
 	vfQuiesce()
-	vfAssert(w.tableLen() == 1 && vfNetOpen() == 2, "still one session")
+	vfAssert(w.tableLen() == 1 && vfNetOpen() == w.socks0+1, "still one session")
 	vfNetSend(w.target, nat2, reply)
 	got, _, ok = w.recv(c2)
 	vfAssert(ok && len(got) == 4 && got[x%4] == reply[x%4], "the reply follows the client's latest address")
@@ -125,7 +129,7 @@ func vfC11_SessionRoaming() {
 
 	// idle out, then stop
 	vfAdvance(vfNatTimeout + time.Millisecond)
-	vfAssert(w.tableLen() == 0 && vfNetOpen() == 1 && vfLiveGoroutines() == 1, "the idle session is torn down")
+	vfAssert(w.tableLen() == 0 && vfNetOpen() == w.socks0 && vfLiveGoroutines() == w.gos0, "the idle session is torn down")
 	vfAssert(w.relay.Stop() == nil, "stop")
 	vfQuiesce()
 	vfAssert(vfNetOpen() == 0 && vfLiveGoroutines() == 0, "stop releases everything")
